@@ -271,6 +271,7 @@ fn main() {
             reg_enum!(jobs, "div_all_pairs", enum_pairs, body; [0, 1, 2, 3, 4, 5, 6, 7, 8]);
             reg_enum!(jobs, "div_limb_alphabet", enum_alphabet_pairs, body; [65, 127, 128, 129, 190, 192, 250, 256]);
             w_all_wide!(reg_gen!(jobs, "div", 25000, strat, body;));
+            reg_gen!(jobs, "div", 300, strat, body; [4160, 8256]);
             // 256 rows x 128 batches x 2048 divisors x 3 numerators = 2e8 divisions, in 16 jobs
             let batches: u64 = if args.tier == "thorough" { 1024 } else { 128 };
             for part in 0..16u64 {
